@@ -182,7 +182,7 @@ def generate(seed, tier):
             'transient': transient,
             'schedule': {'kind': 'file', 'mode': 'root', 'book_order': [0],
                          'placement': pl, 'sheet_orders': {},
-                         'exec_seed': None,
+                         'exec_seed': None, 'extlinks': er.chance(.3),
                          'compact': er.pick([1, 1, 2, 1000])}}
 
 
@@ -302,7 +302,8 @@ def run_one(world, placement, sched, info, transient, log, stats):
         books = xlsx_books(world, placement,
                            skip_sheets=[tuple(x) for x in
                                         info['absent_sheets']],
-                           skip_names=info['bad_names'])
+                           skip_names=info['bad_names'],
+                           extlinks=sched.get('extlinks', False))
         for name, data in books.items():
             disk.put(name, data)
         for b, p in info['bad_books'].items():
